@@ -230,6 +230,28 @@ PROPS["C04"] = dict(
                "message may still leave at the old size within the same step",
 )
 
+PROPS["C05"] = dict(
+    engine="netsim", level="exploration",
+    quick=dict(runs=32000, workers=16, stall_s=180),
+    thorough=dict(budget_s=900, workers=16, stall_s=300),
+    rule="one evaluation = one seeded history of 10-120 steps on one connection (Reno or CUBIC, SACK and timestamps on/off, MSS 536/1000/1460) in which "
+         "the stack sends flights of 1-200 segments to a scripted immediate-ACK receiver; the simulator decides which emitted segments the receiver "
+         "never sees (every loss position, multiple losses, lost retransmissions), when it reads its inbox (delayed/bursty ACKs), injects extra "
+         "duplicate and window-changing ACKs, and advances the clock from milliseconds to 130 s of silence; non-trivial = a retransmission was seen and "
+         "the peer sent at least one ACK; distinct = distinct event-log hash",
+    expected_probes=["fast_retransmits", "third_dup_ack", "rto_retransmissions", "silent_periods", "backoff_depth_ge_3", "backoff_depth_ge_5", "sack_blocks_sent", "dup_acks_sent"],
+    real=NET_REAL, stubs=NET_STUBS + PEER_STUB, assumptions=NET_ASSUME,
+    hang_is_violation=True,
+    level_text="seeded search over ACK/loss/timing histories with emission timestamps taken on the fake clock inside the link endpoint: (1) the third "
+               "duplicate ACK of a connection's first loss episode re-emits the segment at that number in the same step; (2) while the peer is silent only "
+               "the first unacknowledged segment is retransmitted, never sooner than 200 ms after its previous transmission, and the interval at least "
+               "doubles between successive retransmissions; (3) at most 10 segments before the first ACK and, with Reno, segments in flight <= 10 + "
+               "segments acknowledged + duplicate ACKs so far; evidence, not proof",
+    level_note="(1) is asserted only before any earlier recovery or timeout on the connection, because NewReno's 'recover' rule (RFC 6582) legitimately "
+               "suppresses fast retransmit for data already in flight; the first interval of a silent period is excluded from the doubling test because an "
+               "ACK that arrived before the silence restarts the timer; timing clauses are not asserted after a fast retransmit (the statement's 'otherwise')",
+)
+
 PENDING = "check not built yet (work in progress; will be claimed once its simulation exists)"
 NOT_APPLICABLE = {
     "C15": "pure functions of their input (header codecs, RFC 1071 checksum): no schedule, clock, fault, I/O or second party for a simulator to control; "
